@@ -62,13 +62,19 @@ func (u *unionInstanceStrategy) getRequiredValues(m *MethodEvaluator) (
 
 		class := t.GetObjectClass()
 
-		methodT :=
-			base.GetMethodT(
-				m.evaluatedObjectT.GetFrame(),
-				class,
-				m.method,
-				false,
-			)
+		// the member's own frame first: a class defined inside a namespace
+		// is not found under the frame of the union value
+		methodT := base.GetMethodT(t.GetFrame(), class, m.method, false)
+
+		if methodT == nil {
+			methodT =
+				base.GetMethodT(
+					m.evaluatedObjectT.GetFrame(),
+					class,
+					m.method,
+					false,
+				)
+		}
 
 		if methodT != nil {
 			methodT.SetBeforeEvaluateCode(class + "." + m.method)
@@ -78,12 +84,16 @@ func (u *unionInstanceStrategy) getRequiredValues(m *MethodEvaluator) (
 			continue
 		}
 
-		methodT =
-			base.GetInstanceValueT(
-				m.evaluatedObjectT.GetFrame(),
-				class,
-				m.method,
-			)
+		methodT = base.GetInstanceValueT(t.GetFrame(), class, m.method)
+
+		if methodT == nil {
+			methodT =
+				base.GetInstanceValueT(
+					m.evaluatedObjectT.GetFrame(),
+					class,
+					m.method,
+				)
+		}
 
 		if methodT != nil {
 			methodT.SetBeforeEvaluateCode(class + "." + m.method)
